@@ -165,6 +165,9 @@ POISON = {
     "dupCanId": "impl can for A as A2 {\n    id: 10,\n}",           # plug-in rule (dbc)
     "tooBig": "struct Big {\n    a @ 0: u64,\n    b @ 1: u8,\n}\nimpl can for Big {\n    id: 14,\n}",  # can_c
     "variable": "impl can for C {\n    id: 15,\n}",                 # can_c (no static size)
+    # the same two, bound under another name than the struct's
+    "tooBigAlias": "struct Big2 {\n    a @ 0: u32,\n    b @ 1: [u8, 4],\n    c @ 2: u8,\n}\nimpl can for Big2 as BigFrame {\n    id: 16,\n    device: \"ecu\",\n}",
+    "variableAlias": "impl can for C as CFrame {\n    id: 17,\n}",
 }
 PRE = [
     None,
@@ -187,12 +190,13 @@ def gen_case(rng):
     if not any(d.startswith("service Sv") for d in decls):
         decls = [d for d in decls if "services: [Sv]" not in d]
     poison = rng.choice([None, None] + list(POISON))
-    if poison == "variable" and not any(d.startswith("struct C") for d in decls):
+    if poison in ("variable", "variableAlias") and not any(d.startswith("struct C") for d in decls):
         poison = None
     if poison:
         # position: as early as declare-before-use allows, middle or last
         lo = 0
-        need = {"dupType": "struct A", "dupImpl": "impl can for A", "dupCanId": "impl can for A", "variable": "struct C"}.get(poison)
+        need = {"dupType": "struct A", "dupImpl": "impl can for A", "dupCanId": "impl can for A", "variable": "struct C",
+                "variableAlias": "struct C"}.get(poison)
         if need:
             idx = [i for i, d in enumerate(decls) if d.startswith(need)]
             if not idx:
@@ -219,12 +223,12 @@ def run_c10(prop, tier):
         if prop == "C14":
             g = "can_c"
             if rng.random() < 0.7:
-                decls_poison = rng.choice(["tooBig", "variable"])
+                decls_poison = rng.choice(["tooBig", "variable", "tooBigAlias", "variableAlias"])
                 base = 'version: "3"\n\n' + "\n".join(GOOD[:5]) + "\n"
                 pos = rng.choice(["first", "last"])
                 text = base + POISON[decls_poison] + "\n" if pos == "last" else base.replace(
                     "impl can for A", POISON[decls_poison].replace("impl can for C", "impl can for C") + "\nimpl can for A", 1) \
-                    if decls_poison == "tooBig" else base + POISON[decls_poison] + "\n"
+                    if decls_poison in ("tooBig", "tooBigAlias") else base + POISON[decls_poison] + "\n"
                 poison = decls_poison
         else:
             g = rng.choice(["dbc", "can_c", "cpp", "nop", "dbc", "can_c"])
